@@ -331,4 +331,138 @@ theorem iso2_sound (c1 c2 : Circuit) (h1 : ∀ o ∈ c1.ops, OpOK (wiresN c1.ne 
     rw [cr1.count, cr2.count, hWeq] at hlen
     omega
 
+/-! ## well-formed circuits -/
+
+/-- `OpOK` in the vocabulary of C14/C15: the registers are in range and pairwise different -/
+theorem opOK_iff (c : Circuit) (o : Op) :
+    OpOK (wiresN c.ne c.np c.nc) o ↔ InRange c o ∧ (opWires o).Nodup := by
+  unfold OpOK InRange
+  constructor
+  · rintro ⟨h, hn⟩
+    refine ⟨⟨?_, ?_⟩, hn⟩
+    · intro q hq
+      have := (mem_wiresN _ _ _ _).1 (h (Wire.ofQ q) (by unfold opWires; exact List.mem_append_left _ (List.mem_map_of_mem hq)))
+      cases q with | mk t i => cases t <;> exact this
+    · intro r hr
+      exact (mem_wiresN _ _ _ _).1 (h ⟨.c, r⟩ (by unfold opWires; exact List.mem_append_right _ (List.mem_map_of_mem hr)))
+  · rintro ⟨⟨hq, hc⟩, hn⟩
+    refine ⟨?_, hn⟩
+    intro w hw
+    unfold opWires at hw
+    rcases List.mem_append.1 hw with h | h
+    · obtain ⟨q, hq', rfl⟩ := List.mem_map.1 h
+      have := hq q hq'
+      apply (mem_wiresN _ _ _ _).2
+      cases q with | mk t i => cases t <;> exact this
+    · obtain ⟨r, hr, rfl⟩ := List.mem_map.1 h
+      exact (mem_wiresN _ _ _ _).2 (hc r hr)
+
+/-! ## renamed circuits are equivalent -/
+
+theorem ofQ_inj (a b : QReg) (h : Wire.ofQ a = Wire.ofQ b) : a = b := by
+  cases a with | mk t i => cases b with | mk t' i' =>
+  cases t <;> cases t' <;> simp_all [Wire.ofQ, RT.ofRegT]
+
+theorem ofQ_renQ (π : Wire → Wire) (q : QReg) (ht : (π (Wire.ofQ q)).t = (Wire.ofQ q).t) :
+    Wire.ofQ (renQ π q) = π (Wire.ofQ q) := by
+  unfold renQ
+  cases hπ : π (Wire.ofQ q) with | mk t' i' =>
+  rw [hπ] at ht
+  simp only at ht
+  subst ht
+  cases q with | mk t i => cases t <;> rfl
+
+theorem qRegs_renOp (π : Wire → Wire) (o : Op) : (renOp π o).qRegs = o.qRegs.map (renQ π) := by
+  cases o <;> rfl
+
+/-- every quantum register that is not a register of the circuit is untouched -/
+theorem wire_of_quantum (ne np nc : Nat) (w : Wire) (hw : w ∈ wiresN ne np nc) (ht : w.t ≠ .c) :
+    ∃ q : QReg, w = Wire.ofQ q := by
+  cases w with | mk t i =>
+  cases t with
+  | e => exact ⟨⟨.e, i⟩, rfl⟩
+  | p => exact ⟨⟨.p, i⟩, rfl⟩
+  | c => exact absurd rfl ht
+
+/-- **a circuit and its renamed copy**: if `c2` is `c1` with registers renamed by `π` register by register, then the
+    renamed operation list of `c1` and the operation list of `c2` differ only by exchanges of neighbouring operations on
+    disjoint registers -/
+theorem RenamedBy.swapEquiv {π : Wire → Wire} {c1 c2 : Circuit} (h : RenamedBy π c1 c2)
+    (h1 : ∀ o ∈ c1.ops, OpOK (wiresN c1.ne c1.np c1.nc) o) (h2 : ∀ o ∈ c2.ops, OpOK (wiresN c2.ne c2.np c2.nc) o) :
+    SwapEquiv (c1.ops.map (renOp π)) c2.ops := by
+  have hW2 : wiresN c2.ne c2.np c2.nc = wiresN c1.ne c1.np c1.nc := by rw [h.ne, h.np, h.nc]
+  apply swapEquiv_of_wires
+  · intro o ho
+    obtain ⟨o', _, rfl⟩ := List.mem_map.1 ho
+    exact qRegs_ne_nil _
+  · intro q
+    by_cases hq : Wire.ofQ q ∈ wiresN c1.ne c1.np c1.nc
+    · obtain ⟨w, hw, hπ⟩ := h.surj _ hq
+      have hwt : w.t ≠ .c := by
+        have := (h.into w hw).2
+        rw [hπ] at this
+        rw [← this]
+        exact ofQ_t_ne_c q
+      obtain ⟨q0, rfl⟩ := wire_of_quantum _ _ _ w hw hwt
+      have hq0 : q = renQ π q0 := renQ_spec π q0 q (h.into _ hw).2 hπ
+      have e2 : c2.ops.filter (onReg q) = (c1.ops.filter (touches (Wire.ofQ q0))).map (renOp π) := by
+        rw [← h.wires _ hw, hπ]
+        apply List.filter_congr
+        intro o _
+        rw [touches_ofQ]; rfl
+      rw [e2, List.filter_map]
+      congr 1
+      apply List.filter_congr
+      intro o ho
+      simp only [Function.comp, onReg, qRegs_renOp, touches_ofQ]
+      rw [hq0]
+      apply Bool.eq_iff_iff.2
+      simp only [List.contains_eq_mem, List.mem_map, decide_eq_true_eq]
+      constructor
+      · rintro ⟨a, ha, hab⟩
+        have haW : Wire.ofQ a ∈ wiresN c1.ne c1.np c1.nc :=
+          (h1 o ho).1 _ (by unfold opWires; exact List.mem_append_left _ (List.mem_map_of_mem ha))
+        have e1 := ofQ_renQ π a (h.into _ haW).2
+        have e0 := ofQ_renQ π q0 (h.into _ hw).2
+        rw [hab] at e1
+        have := h.inj _ haW _ hw (e1.symm.trans e0)
+        rw [← ofQ_inj _ _ this]
+        exact ha
+      · intro hm
+        exact ⟨q0, hm, rfl⟩
+    · -- a register outside the circuits: no operation of either circuit touches it
+      have e1 : (c1.ops.map (renOp π)).filter (onReg q) = [] := by
+        rw [List.filter_eq_nil_iff]
+        intro o ho hc
+        obtain ⟨o', ho', rfl⟩ := List.mem_map.1 ho
+        simp only [onReg, qRegs_renOp, List.contains_eq_mem, List.mem_map, decide_eq_true_eq] at hc
+        obtain ⟨a, ha, rfl⟩ := hc
+        have haW : Wire.ofQ a ∈ wiresN c1.ne c1.np c1.nc :=
+          (h1 o' ho').1 _ (by unfold opWires; exact List.mem_append_left _ (List.mem_map_of_mem ha))
+        apply hq
+        rw [ofQ_renQ π a (h.into _ haW).2]
+        exact (h.into _ haW).1
+      have e2 : c2.ops.filter (onReg q) = [] := by
+        rw [List.filter_eq_nil_iff]
+        intro o ho hc
+        simp only [onReg, List.contains_eq_mem, decide_eq_true_eq] at hc
+        apply hq
+        rw [← hW2]
+        exact (h2 o ho).1 _ (by unfold opWires; exact List.mem_append_left _ (List.mem_map_of_mem hc))
+      rw [e1, e2]
+  · rw [List.length_map]; exact h.len
+
+/-- exchanging neighbouring operations on disjoint registers does not change the result, in every semantics in which
+    operations on disjoint quantum registers commute -/
+theorem SwapEquiv.same_state {σ : Type} (app : Op → σ → σ)
+    (hcomm : ∀ a b, disjointOps a b = true → ∀ s, app b (app a s) = app a (app b s))
+    {l1 l2 : List Op} (h : SwapEquiv l1 l2) (s : σ) :
+    l1.foldl (fun s o => app o s) s = l2.foldl (fun s o => app o s) s := by
+  induction h generalizing s with
+  | refl l => rfl
+  | swap pre a b post hd =>
+    simp only [List.foldl_append, List.foldl_cons]
+    rw [hcomm a b hd]
+  | trans _ _ ih1 ih2 => exact (ih1 s).trans (ih2 s)
+
 end Graphiq.Compare
